@@ -306,6 +306,11 @@ func (e *Engine) verifyFunction(fn *ssa.Function, safety bool) (fr *Frame, err e
 				e.specError(f.name, en, err)
 				continue
 			}
+			if c.Flags["defines"] {
+				// definitional clause: the function's result defines an uninterpreted spec relation (determinism assumed)
+				f.notes["definitional contract (the function defines the spec relation; determinism in the argument contents assumed): "+f.name] = true
+				continue
+			}
 			f.oblige(exit, "post", en.Label, en.Props, en.Tags, t, fn.Pos(), en.Text)
 		}
 		// parallel-append discipline (parelem): the instance only appends, and what it appends satisfies the predicate
